@@ -47,6 +47,17 @@ func (j *Job) Explore(caseName string, sc *Scenario, b Budget, classify func(x *
 			for _, p := range x.Out.Panics {
 				fmt.Printf("REPLAY-VIOLATION oracle=panic %s\n", p)
 			}
+			if os.Getenv("VERIF_TRACE") != "" {
+				for i, st := range x.Out.Steps {
+					ch := 0
+					if i < len(j.Replay.Prefix) {
+						ch = j.Replay.Prefix[i]
+					}
+					if st.N > 1 {
+						fmt.Printf("  step %d n=%d choice=%d %s cats=%v\n", i, st.N, ch, st.Sig, st.Cats)
+					}
+				}
+			}
 		}
 		j.Stats.Execs++
 		return
